@@ -32,8 +32,8 @@ type c13Plan struct {
 	SendAfter   bool   `json:"send_after,omitempty"`
 	// CauseCtx: after the cancellation scenario the channel is also called with a context that was cancelled with a
 	// cause (context.WithCancelCause): its Err() is still context.Canceled, and that is what the errors must wrap.
-	CauseCtx bool `json:"cause_ctx,omitempty"`
-	FlushFull   bool   `json:"flush_full,omitempty"` // the cancelled send is the flush of a message that exactly filled its packets
+	CauseCtx  bool `json:"cause_ctx,omitempty"`
+	FlushFull bool `json:"flush_full,omitempty"` // the cancelled send is the flush of a message that exactly filled its packets
 	// close
 	Logout string `json:"logout,omitempty"` // answer | late | never | partial
 	// ConcurrentClose (closed-calls): two goroutines call Close on the channel at the same time.
